@@ -392,3 +392,14 @@ impl ZerokitMerkleProof for PmTreeProof {
         self.proof.compute_root_from(leaf)
     }
 }
+
+/// Verification hook: lets a harness build a proof object from altered parts, to check that the
+/// tree's own proof check rejects it. Not compiled unless `--cfg zerokit_verif` is given.
+#[cfg(zerokit_verif)]
+impl PmTreeProof {
+    pub fn verif_from_parts(parts: Vec<(Fr, u8)>) -> Self {
+        PmTreeProof {
+            proof: pmtree::tree::MerkleProof(parts),
+        }
+    }
+}
